@@ -3,7 +3,7 @@
   c13 run G <n> module*n M <n> module*n
       G: runtime modules declared before the script (same `declare_modules` shape, parent none)
       module := ident parent+1(0 = none) nitems item*
-      item   := F name tag block | C name tag | T name tag | I npaths path* | S id path
+      item   := F name tag block | C name tag | T name tag | I npaths path* | S id kind path
       block  := nimports path* nstmts stmt*
       stmt   := L name tag | B block | P id kind(0 fn, 1 const, 2 type) path
       path   := len name*
@@ -61,7 +61,7 @@ def item : P Item := do
   | "C" => do let n ← nat; let t ← nat; pure (.const n t)
   | "T" => do let n ← nat; let t ← nat; pure (.ty n t)
   | "I" => do let k ← nat; let ps ← rep path k; pure (.imports ps)
-  | "S" => do let id ← nat; let p ← path; pure (.sigProbe id p)
+  | "S" => do let id ← nat; let k ← pkind; let p ← path; pure (.sigProbe id k p)
   | _ => failure
 
 def module : P Module := do
